@@ -143,6 +143,11 @@ fn build_member(idx: usize, n: usize, x: usize, cfg: &Value, picker: &mut Picker
         pc_gens.g_base_vec[1] = pc_gens.g_base_vec[0] * Scalar::from(2u8);
         pc_gens.g_base_compressed_vec[1] = pc_gens.g_base_vec[1].compress();
     }
+    if cfg["h_point_only"].as_bool().unwrap_or(false) {
+        // the value generator (a public field) reassigned WITHOUT refreshing its cached encoding: the prover must bind the generator it actually
+        // uses, not what an earlier state of the object looked like
+        pc_gens.h_base = pc_gens.h_base + curve25519_dalek::constants::RISTRETTO_BASEPOINT_POINT * Scalar::from(11u8);
+    }
     if let Some(i) = cfg["g1_shift"].as_u64() {
         // blinding generator 1 moved by i*D (D a fixed point): three statements i = 0, 1, 2 that differ ONLY in that generator
         if x >= 2 && i > 0 {
@@ -154,7 +159,7 @@ fn build_member(idx: usize, n: usize, x: usize, cfg: &Value, picker: &mut Picker
     // share_params: ONE parameters object per (bit length, capacity, degree) for the whole process — later members of the batch and later
     // steps of a `history` scenario get CLONES of the object the first user built (state kept inside or behind a parameters object is shared
     // by its clones); without the option every member builds its own
-    let plain_gens = !cfg["degenerate_g"].as_bool().unwrap_or(false) && cfg["g1_shift"].as_u64().unwrap_or(0) == 0;
+    let plain_gens = !cfg["degenerate_g"].as_bool().unwrap_or(false) && cfg["g1_shift"].as_u64().unwrap_or(0) == 0 && !cfg["h_point_only"].as_bool().unwrap_or(false);
     let params = if cfg["share_params"].as_bool().unwrap_or(false) && plain_gens {
         let found = PARAMS_POOL.with(|pool| pool.borrow().iter().find(|(k, _)| *k == (n, cap, x)).map(|(_, p)| p.clone()));
         match found {
